@@ -52,6 +52,16 @@ example : (getDatarate .EU433 2).map (fun d => (d.spreading_factor.factor, d.ban
 
 end C05
 
+namespace C10
+
+/-- the regional default RX2 frequency is RP002's; for the AS923 groups it is 923.2 MHz shifted by the
+group's offset like every other default frequency (AS923-3 carried 916.5 MHz until /repo's fix of the
+RX2 default; `C10.tieA_rx2Frequency` ties `rx2Frequency` to the regenerated constant) -/
+theorem rx2_default_freq_rp002 : ∀ r ∈ RegionId.all, rx2Frequency r = rx2DefaultFreq r.name := by decide
+
+end C10
+
+#print axioms C10.rx2_default_freq_rp002
 #print axioms C05.datarate_tables_rp002
 #print axioms C05.getDatarate_rp002
 #print axioms C05.window_limit_rp002
